@@ -486,7 +486,7 @@ def World.notifyLeave (w : World) (i : Nat) (peer : Nat) : World :=
 
 def World.nodeFail (w : World) (f : Nat) : World :=
   let nf := w.node f
-  let w := w.setNode f { nf with failed := true, reg := [] }
+  let w := w.setNode f { nf with failed := true, reg := [], pending := [] }   -- a failed node gossips no more
   let closedConns := (w.conns.filter (fun c => c.2 == f)).map (·.1)
   let w := closedConns.foldl (fun w c => w.emit c .closed) { w with conns := w.conns.filter (fun c => c.2 != f) }
   (List.range w.nodes.length).foldl (fun w i => if i ≠ f ∧ !(w.node i).failed then w.notifyLeave i nf.peer else w) w
@@ -507,6 +507,10 @@ def World.idle (w : World) (ms : Int) : World :=
       (w.setNode i { n with dist := d }).broadcast i ev) w
     -- read deadlines
     let expired := ((w.node i).reg.filter (fun s => s.deadline < w.now)).map (·.id)
-    expired.foldl (fun w sid => w.shutdownSession i sid) w) w
+    -- a will published by an earlier victim may be delivered to a later one, which re-arms its deadline
+    expired.foldl (fun w sid =>
+      match (w.node i).sess sid with
+      | some s => if s.deadline < w.now then w.shutdownSession i sid else w
+      | none => w) w) w
 
 end Wasp.Broker
